@@ -22,7 +22,11 @@ RULE = ("Hypothesis constructs a directory tree of .xbb files: 1..3 subroutines 
         "(reference inliner): each call is expanded recursively on the model -- modes of the (expanded) subroutine sorted "
         "increasingly and zipped with the call's modes, parameters bound to the call's keyword values -- and the resulting operations "
         "and mode set are compared with blackbird.load(main). Non-trivial = subroutine whose written mode order is not increasing, or "
-        ">=2 calls of one subroutine, or nesting depth >=2, or cwd != main directory. Distinct = SHA-1 of all file texts + cwd.")
+        ">=2 calls of one subroutine, or nesting depth >=2, or cwd != main directory. Distinct = SHA-1 of all file texts + cwd."
+        " Subroutines may contain for loops (loop-invariant statements plus one using the loop variable); a later call"
+        " of the same subroutine may pass look-alike keyword values (2 / 2.0); a quarter of the cases writes one"
+        " include as \"lnk/../<path>\" through a symbolic link into another directory tree (the operating system's"
+        " resolution is the oracle, a decoy file sits where a textual normalisation would look).")
 ASSUMPTIONS = ["reference interpreter and inliner (bbv/model/refsem.py)", "files are ASCII (FileStream default)",
                "mismatched calls (arity, keywords) are covered by C11"]
 BUDGET = {"quick": (1200, 4), "thorough": (8000, 16)}
